@@ -514,6 +514,36 @@ def d26_probe(d):
         R.notes.append('D26 fractional-start probe raised ' + type(e).__name__)
 
 
+# ------------------------------------------------------------------------------------------------ 2D lines
+def lines_2d(d):
+    """a 2D line is a regular source too: its trace count and sample axis (negative / positive whole-millisecond starts, whole-
+    and sub-millisecond intervals) are the source's, through the reader and through seismic_zfp.open"""
+    import seismic_zfp
+    for k, (nt, ns, dt_us, t0) in enumerate([(rng.choice([5, 6, 9]), rng.choice([7, 12, 17]), rng.choice([4000, 2000, 1000]), rng.choice([-100, -12, -2000, -32768])),
+                                             (rng.choice([4, 7]), rng.choice([5, 9]), rng.choice([500, 2500, 250]), rng.choice([0, 8, -8])),
+                                             (rng.choice([3, 8]), rng.choice([6, 13]), rng.choice([4000, 3000]), rng.choice([100, 32767]))]):
+        sgy, p = os.path.join(d, f'l2d{k}.sgy'), os.path.join(d, f'l2d{k}.sgz')
+        inp = {'route': 'segy-2d', 'n_traces': nt, 'ns': ns, 'dt': dt_us, 't0': t0}
+        R.case(('2d', nt, ns, dt_us, t0), nontrivial=True, sample=inp)
+        R.count('2d_line' + ('_negative_start' if t0 < 0 else ''))
+        try:
+            mk_segy_2d(sgy, rnd_cube(rng, (1, nt, ns))[0], dt_us=dt_us, t0=t0)
+            with segyio.open(sgy, strict=False) as f:
+                want, wn = np.array(f.samples, dtype=np.float64), f.tracecount
+            write_segy_sgz(sgy, p, bpv=8, blockshape=(1, 16, -1))
+            with SgzReader(p) as r:
+                got, gn = np.asarray(r.zslices, dtype=np.float64), r.tracecount
+            with seismic_zfp.open(p) as f:
+                got2, gn2 = np.asarray(f.samples, dtype=np.float64), f.tracecount
+            for g, n_, how in ((got, gn, 'SgzReader'), (got2, gn2, 'seismic_zfp.open')):
+                if n_ != wn:
+                    R.violation('oracle', inp, f'{how}: trace count {n_}, source {wn}')
+                if len(g) != len(want) or not np.allclose(g, want, rtol=1e-12, atol=1e-9):
+                    R.violation('oracle', inp, f'{how}: sample axis of the 2D line {[float(v_) for v_ in g[:3]]}.. differs from the source {[float(v_) for v_ in want[:3]]}..')
+        except Exception as e:
+            R.violation('oracle', inp, 'valid 2D line raised ' + type(e).__name__ + ': ' + str(e)[:200])
+
+
 # ------------------------------------------------------------------------------------------------ shared caller objects
 def shared_arguments(d):
     """NumPy route: what the caller hands to one conversion (header dict, axis arrays) is the caller's; a later conversion that
@@ -557,6 +587,56 @@ def shared_arguments(d):
         R.count('numpy: shared caller objects')
 
 
+# ------------------------------------------------------------------------------------------------ axes given through header arrays only
+def axes_from_headers(d):
+    """NumPy route: the inline / crossline axes handed over ONLY as INLINE_3D (189) / CROSSLINE_3D (193) header grids (no
+    ilines= / xlines= arguments, or only one of them, or both consistently): the written file reports the axes the grids
+    define (grid[:, 0] / grid[0, :]) in THAT order -- descending and negative axes included"""
+    both = 'both grids, no axis arguments'
+    plan = [(both, -1, 1), (both, 1, -1), (both, -1, -1), (both, 1, 1), ('inline grid only, xlines= given', -1, rng.choice([1, -1])),
+            ('crossline grid only, ilines= given', rng.choice([1, -1]), -1), ('both grids and both (consistent) axis arguments', -1, -1)]
+    for how, sg_il, sg_xl in plan:
+        n_il, n_xl, ns = rng.choice([(4, 5, 6), (3, 7, 5), (6, 4, 7), (2, 2, 4)])
+        il0, il_s = rng.choice([2100, -7, 15, 300]), sg_il * rng.choice([1, 2, 5])
+        xl0, xl_s = rng.choice([-40, 1000, 8, 64]), sg_xl * rng.choice([1, 3, 4])
+        il = [il0 + il_s * i for i in range(n_il)]
+        xl = [xl0 + xl_s * i for i in range(n_xl)]
+        dty = rng.choice([np.int32, np.int64])
+        il_grid = np.repeat(np.array(il, dtype=dty)[:, None], n_xl, 1)
+        xl_grid = np.repeat(np.array(xl, dtype=dty)[None, :], n_il, 0)
+        hd, kw = {}, {}
+        if how != 'crossline grid only, ilines= given':
+            hd[189] = il_grid
+        if how != 'inline grid only, xlines= given':
+            hd[193] = xl_grid
+        if 189 not in hd or how.startswith('both grids and'):
+            kw['ilines'] = np.array(il, dtype=np.int32)
+        if 193 not in hd or how.startswith('both grids and'):
+            kw['xlines'] = np.array(xl, dtype=np.int32)
+        hd[181] = np.arange(n_il * n_xl, dtype=np.int32).reshape(n_il, n_xl) * 3 + 11
+        p = os.path.join(d, 'hdraxes.sgz')
+        inp = {'route': 'numpy, axes through header arrays', 'shape': [n_il, n_xl, ns], 'given': how, 'il': il, 'xl': xl, 'dtype': np.dtype(dty).name}
+        try:
+            with NumpyConverter(rnd_cube(rng, (n_il, n_xl, ns)), trace_headers=hd, **kw) as c:
+                quiet(c.run, p, bits_per_voxel=8)
+            with SgzReader(p) as r:
+                got_il, got_xl = [int(v) for v in r.ilines], [int(v) for v in r.xlines]
+                if got_il != il:
+                    R.violation('oracle', inp, f'ilines {got_il} != the axis the inline header grid defines {il}')
+                if got_xl != xl:
+                    R.violation('oracle', inp, f'xlines {got_xl} != the axis the crossline header grid defines {xl}')
+                if r.tracecount != n_il * n_xl or not r.structured or (r.n_ilines, r.n_xlines, r.n_samples) != (n_il, n_xl, ns):
+                    R.violation('oracle', inp, f'counts {(r.n_ilines, r.n_xlines, r.n_samples)} / tracecount {r.tracecount} / structured {r.structured} differ from the source')
+                for f, grid in ((189, il_grid), (193, xl_grid)):
+                    g = r.get_tracefield_values(f)
+                    if g.shape != grid.shape or not np.array_equal(g, grid):
+                        R.violation('oracle', inp, f'header grid {f} of the written file {g.reshape(-1)[:4].tolist()}.. is not the source\'s {grid.reshape(-1)[:4].tolist()}..')
+        except Exception as e:
+            R.violation('oracle', inp, f'valid NumPy conversion raised {type(e).__name__}: {e}')
+        R.case(('hdr-axes', how, tuple(il), tuple(xl), ns), nontrivial=True, sample=inp)
+        R.count('numpy: axes through header arrays' + (' (descending)' if sg_il < 0 or sg_xl < 0 else ''))
+
+
 # ------------------------------------------------------------------------------------------------ main
 def main():
     if a.replay:
@@ -593,6 +673,8 @@ def main():
         if not a.replay:
             d26_probe(d)
             shared_arguments(d)
+            lines_2d(d)
+            axes_from_headers(d)
     finally:
         shutil.rmtree(d, ignore_errors=True)
     if not a.no_model or True:      # the model is evaluated inside Coq (coqeval), independent of the extracted driver
